@@ -788,7 +788,7 @@ class _CP:
 
     def __getattr__(self, n):
         cp = _real_cp()
-        if n in ("SCS", "ECOS", "CLARABEL", "OSQP", "SCIPY", "HIGHS", "error", "installed_solvers", "settings"):
+        if n in ("SCS", "ECOS", "CLARABEL", "OSQP", "SCIPY", "HIGHS", "error", "installed_solvers", "settings", "OPTIMAL", "OPTIMAL_INACCURATE", "INFEASIBLE", "UNBOUNDED"):
             return getattr(cp, n)
         raise UnmodelledDependency(f"cvxpy.{n}")
 
